@@ -90,7 +90,7 @@ func runC05(cx *Ctx, r *Report) {
 			// exactly one of the two routes: at the lowest frame the two reductions share they are
 			// mutually exclusive and one of them is on every successful path; from there up to
 			// the payout's frame every call is a must call, and both precede the payout
-			top := pay[0].ev.Fr
+			top := hostFrame(pay[0].ev.Fr)
 			lift := func(e *Event) ssa.Instruction {
 				var s ssa.Instruction = e.Site
 				for f := e.Fr; f != nil; f = f.Parent {
@@ -112,7 +112,8 @@ func runC05(cx *Ctx, r *Report) {
 					okOne = false
 				}
 			}
-			if l1, l2 := lift(direct[0].ev), lift(shared[0].ev); okOne && (l1 == nil || l2 == nil || !orderedBeforeInstr(l1, pay[0].ev.Site) || !orderedBeforeInstr(l2, pay[0].ev.Site)) {
+			paySite := lift(pay[0].ev)
+			if l1, l2 := lift(direct[0].ev), lift(shared[0].ev); okOne && (l1 == nil || l2 == nil || paySite == nil || !orderedBeforeInstr(l1, paySite) || !orderedBeforeInstr(l2, paySite)) {
 				okOne = false
 			}
 			r.check(okOne, "unstake-one-route", "Unstake", pos, "every successful unstake reduces the pool total by exactly one of two mutually exclusive routes before paying out", "the pool total is not reduced by exactly one route on every successful unstake")
@@ -381,7 +382,7 @@ func runC06(cx *Ctx, r *Report) {
 			var s *hev
 			for k := range send {
 				for f := rel[i].x.ev.Fr; f != nil; f = f.Parent {
-					if send[k].ev.Fr == f {
+					if hostFrame(send[k].ev.Fr) == f {
 						s = &send[k]
 					}
 				}
